@@ -15,6 +15,9 @@ import RbV.Lemmas.LcskppFinal
 import RbV.Lemmas.SdpkppUnion
 import RbV.Lemmas.KmerHash
 import RbV.Lemmas.Expand
+import RbV.Thm.GenSrcLcskpp
+import RbV.Thm.GenSrcSdpkpp
+import RbV.Thm.GenSrcKmerMatches
 /-!
 # C19 — k-mer / q-gram indexing and sparse chaining are exact
 
@@ -413,6 +416,54 @@ example : (hmGet [1, 2] (hashKmers [1, 2, 1, 2] 2)).getD [] = [0, 2] ∧ kmerMat
 
 end kmer_hash
 
+/-! ## `hash_kmers`, `find_kmer_matches*` — the source text (`RbV/Gen/SrcKmerMatches.lean`, builder gensparse)
+
+`HashMapFx<&[u8], Vec<u32>>` = `Rs.HMap` (only `entry(k).or_default().push(i)` and `get(k)` are used: the iteration order of
+the hash map is never observed); the final `sort_unstable()` is any function meeting `Rs.SortOk` on the derived order of
+`(u32, u32)`.  Sequences shorter than 2³² (positions are stored as `u32`). -/
+section kmer_source
+open RbV.Rs RbV.Model.KmerHash RbV.Thm.GenSrcKmerMatches
+
+/-- `hash_kmers` as written in the source builds the model's map: under every k-mer the ascending list of its positions -/
+theorem hash_kmers_source_eq_model (sortM : List (Nat × Nat) → List (Nat × Nat)) (seq : List Nat) (k : Nat) (hlen : seq.length < 2 ^ 32)
+    (key : List Nat) :
+    ∃ m, Gen.SrcKmerMatches.hashKmers sortM seq k = Res.ok m ∧ m = hashKmers seq k ∧
+      (Rs.HMap.get m key).getD [] = (List.range (seq.length + 1 - k)).filter (fun i => window k seq i = key) :=
+  ⟨_, GenSrcKmerMatches.hashKmers_eq_model sortM seq k hlen, rfl, by rw [GenSrcKmerMatches.get_eq]; exact hash_kmers_model_exact seq k key⟩
+
+/-- the two matchers over a given map, as written in the source = their mirror models (for every map) -/
+theorem find_kmer_matches_hashed_source_eq_model (sortM : List (Nat × Nat) → List (Nat × Nat)) (hsort : SortOk sortM) (m : HMap)
+    (seq : List Nat) (k : Nat) (hlen : seq.length < 2 ^ 32) :
+    Gen.SrcKmerMatches.seq1Hashed sortM m seq k = Res.ok (seq1Hashed m seq k) ∧
+    Gen.SrcKmerMatches.seq2Hashed sortM seq m k = Res.ok (seq2Hashed seq m k) :=
+  ⟨GenSrcKmerMatches.seq1Hashed_eq_model sortM hsort m seq k hlen, GenSrcKmerMatches.seq2Hashed_eq_model sortM hsort seq m k hlen⟩
+
+/-- **the translated `find_kmer_matches` (through the translated `hash_kmers` and the translated matcher of the branch taken)
+returns exactly the strictly sorted set of position pairs with equal k-mers** — no panic, for all sequences shorter than
+2³², every `k`, every `sort_unstable` meeting its contract; and so do the two `_hashed` entry points on the translated hash
+of the other sequence -/
+theorem find_kmer_matches_source_exact (sortM : List (Nat × Nat) → List (Nat × Nat)) (hsort : SortOk sortM) (x y : List Nat) (k : Nat)
+    (hx : x.length < 2 ^ 32) (hy : y.length < 2 ^ 32) :
+    (∃ l, Gen.SrcKmerMatches.findKmerMatches sortM x y k = Res.ok l ∧ l = kmerMatches x y k ∧ l.Pairwise lexLt ∧
+      ∀ i j, (i, j) ∈ l ↔ i + k ≤ x.length ∧ j + k ≤ y.length ∧ (x.drop i).take k = (y.drop j).take k) ∧
+    (∃ hx', Gen.SrcKmerMatches.hashKmers sortM x k = Res.ok hx' ∧
+      Gen.SrcKmerMatches.seq1Hashed sortM hx' y k = Res.ok (kmerMatches x y k)) ∧
+    (∃ hy', Gen.SrcKmerMatches.hashKmers sortM y k = Res.ok hy' ∧
+      Gen.SrcKmerMatches.seq2Hashed sortM x hy' k = Res.ok (kmerMatches x y k)) := by
+  obtain ⟨h1, h2, h3⟩ := find_kmer_matches_model_refines x y k
+  refine ⟨⟨_, GenSrcKmerMatches.findKmerMatches_eq_model sortM hsort x y k hx hy, h1, ?_, ?_⟩,
+    ⟨_, GenSrcKmerMatches.hashKmers_eq_model sortM x k hx, ?_⟩, ⟨_, GenSrcKmerMatches.hashKmers_eq_model sortM y k hy, ?_⟩⟩
+  · rw [h1]; exact kmerMatches_sorted x y k
+  · intro i j; rw [h1]; exact kmerMatches_exact x y k i j
+  · rw [GenSrcKmerMatches.seq1Hashed_eq_model sortM hsort _ y k hy, h2]
+  · rw [GenSrcKmerMatches.seq2Hashed_eq_model sortM hsort x _ k hx, h3]
+
+example : Gen.SrcKmerMatches.findKmerMatches stdSortM [1, 2, 1, 2] [2, 1, 2] 2 = Res.ok [(0, 1), (1, 0), (2, 1)] := by
+  obtain ⟨⟨l, h1, h2, _⟩, _⟩ := find_kmer_matches_source_exact stdSortM stdSortM_ok [1, 2, 1, 2] [2, 1, 2] 2 (by decide) (by decide)
+  rw [h1, h2]; decide
+
+end kmer_source
+
 /-! ## `expand_kmer_matches` (mirror model `RbV/Model/Expand.lean`) -/
 section expand_model
 open RbV.Model.Expand RbV.Model.Lcskpp RbV.Lemmas.Expand
@@ -722,6 +773,63 @@ theorem lcskpp_model_path_ascending (ms : List M) (k : Nat) (hk : 0 < k) (hs : m
 
 end lcskpp_model
 
+/-! ## `sparse::lcskpp` — the source text itself (translated on every run: `RbV/Gen/SrcLcskpp.lean`, builder gensparse)
+
+`sort_unstable` and `binary_search` are std, not rust-bio: the translated function takes them as parameters and the
+theorems hold for **every** pair meeting the contracts `Rs.SortOk` (a permutation, ascending in the derived order of the
+event triples the translated text builds: the sort *key* — coordinates, then `idx` / `idx + len` — is part of the text) and
+`Rs.BSearchOk`.  `GenSrcLcskpp.Bnd`: fewer than 2³¹ matches, every coordinate `+ k` fits `u32`. -/
+section lcskpp_source
+open RbV.Rs RbV.Model.Lcskpp RbV.Lemmas.Lcskpp RbV.Thm.GenSrcLcskpp
+
+/-- **`lcskpp` as written in the source = the mirror model**: same path, same score, same `dp_vector`, no panic (no index
+out of range, no overflow, the sortedness assertion holds), the traceback loop ends by its own condition — for every
+strictly sorted match list, `k ≥ 1`, and every `sort_unstable` / `binary_search` meeting the contracts of std -/
+theorem lcskpp_source_eq_model (sortEv : List Ev → List Ev) (bs : List M → M → Except Nat Nat) (hsort : SortOk sortEv)
+    (hbs : BSearchOk bs) (ms : List M) (k : Nat) (hk : 0 < k) (hs : ms.Pairwise lexLt) (hB : Bnd ms k) :
+    ∃ r, lcskpp ms k = .ok r ∧ Gen.SrcLcskpp.lcskpp sortEv bs ms k = Res.ok (r.path, r.score, r.dp) :=
+  GenSrcLcskpp.lcskpp_eq_model sortEv bs hsort hbs ms k hk hs hB
+
+/-- **the translated `lcskpp` returns a valid chain of maximum LCSk++ score**: it does not panic; its path is a valid chain
+over the matches; the LCSk++ score of that chain is the reported `score`; the score is the optimum `lcskDP`; no valid chain
+over the matches scores more.  (Stated on what the property fixes — *which* optimal chain is returned is not part of the
+statement.) -/
+theorem lcskpp_source_valid_optimal (sortEv : List Ev → List Ev) (bs : List M → M → Except Nat Nat) (hsort : SortOk sortEv)
+    (hbs : BSearchOk bs) (ms : List M) (k : Nat) (hk : 0 < k) (hs : ms.Pairwise lexLt) (hB : Bnd ms k) :
+    ∃ path sc dp, Gen.SrcLcskpp.lcskpp sortEv bs ms k = Res.ok (path, sc, dp) ∧ validChain ms k path = true ∧
+      score k (pathMatches ms path) = sc ∧ sc = lcskDP ms k ∧
+      ∀ c, Chain k c → (∀ e ∈ c, e ∈ ms) → score k c ≤ sc := by
+  obtain ⟨r, h1, h2⟩ := GenSrcLcskpp.lcskpp_eq_model sortEv bs hsort hbs ms k hk hs hB
+  obtain ⟨r', h1', h3, h4, h5, h6⟩ := lcskpp_model_optimal ms k hk hs
+  have : r' = r := by rw [h1] at h1'; cases h1'; rfl
+  subst this
+  exact ⟨r'.path, r'.score, r'.dp, h2, h3, h4, h5, h6⟩
+
+/-- on an unsorted list the translated function panics at its assertion is *not* claimed; what is claimed for the empty
+list: the empty result -/
+theorem lcskpp_source_empty (sortEv : List Ev → List Ev) (bs : List M → M → Except Nat Nat) (k : Nat) :
+    Gen.SrcLcskpp.lcskpp sortEv bs [] k = Res.ok ([], 0, []) := by
+  simp [Gen.SrcLcskpp.lcskpp]
+
+/-- the translated `FenwickTree::new` (`vec![T::default(); len + 1]`) is the model's `new` -/
+theorem fenwick_new_source_eq_model (len : Nat) (h : len + 1 < 2 ^ 64) :
+    Gen.SrcFenwickNew.new ((0, 0) : Nat × Nat) len = Res.ok (Model.Fenwick.new (0, 0) len) :=
+  GenSrcLcskpp.fenwickNew_eq_model _ len h
+
+/-- the contracts are satisfiable: merge sort by the derived order, first-position search -/
+theorem lcskpp_source_contracts_satisfiable : SortOk stdSortEv ∧ BSearchOk stdBsM := ⟨stdSortEv_ok, stdBsM_ok⟩
+
+example : ∃ path dp, Gen.SrcLcskpp.lcskpp stdSortEv stdBsM [(0, 0), (1, 1), (2, 2), (5, 5), (6, 9)] 3 = Res.ok (path, 8, dp) ∧
+    validChain [(0, 0), (1, 1), (2, 2), (5, 5), (6, 9)] 3 path = true := by
+  obtain ⟨path, sc, dp, h1, h2, _, h4, _⟩ := lcskpp_source_valid_optimal stdSortEv stdBsM stdSortEv_ok stdBsM_ok
+    [(0, 0), (1, 1), (2, 2), (5, 5), (6, 9)] 3 (by decide) (by simp [lexLt])
+    ⟨by decide, by intro m hm; simp at hm; rcases hm with rfl | rfl | rfl | rfl | rfl <;> decide⟩
+  have : sc = 8 := by rw [h4]; decide
+  subst this
+  exact ⟨path, dp, h1, h2⟩
+
+end lcskpp_source
+
 /-! ## `sdpkpp` and `sdpkpp_union_lcskpp_path` (mirror models `RbV/Model/Sdpkpp.lean`) -/
 section sdpkpp_model
 open RbV.Model.Lcskpp RbV.Model.Sdpkpp RbV.Lemmas.Lcskpp RbV.Lemmas.Sdpkpp
@@ -769,6 +877,102 @@ example : validChain [(0, 0), (1, 1), (2, 2), (5, 5), (6, 9)] 3 [0, 1, 4] = true
       [0, 1, 4].drop (match findIdx 3 0 [0, 1, 4] with | some ind => ind + 1 | none => 3)) = [0, 1, 2, 3] := by decide
 
 end sdpkpp_model
+
+/-! ## `sdpkpp_union_lcskpp_path`, `PrevPtr::new` — the source text (`RbV/Gen/SrcSdpkpp.lean`, builder gensparse) -/
+section union_source
+open RbV.Rs RbV.Model.Lcskpp RbV.Model.Sdpkpp RbV.Lemmas.Lcskpp RbV.Lemmas.Sdpkpp RbV.Thm.GenSrcLcskpp RbV.Thm.GenSrcSdpkpp
+
+/-- **`sdpkpp_union_lcskpp_path` as written in the source** calls the translated `lcskpp` and `sdpkpp`; whatever they return
+(`lcskpp` path ascending, `sdpkpp` path non-empty) the result is the splice `lcskpp.path[..pre] ++ sdpkpp.path ++
+lcskpp.path[post..]` the mirror model computes, with `pre` / `post` decided by the two `binary_search` calls (contract
+`Rs.BSearchOk`; the insertion point of an `Err` is not used); no index of the copy loops is out of range -/
+theorem union_source_eq_splice (sortEv : List Ev → List Ev) (bsM : List M → M → Except Nat Nat) (bsN : List Nat → Nat → Except Nat Nat)
+    (hbsN : BSearchOk bsN) (ms : List M) (k msc : Nat) (go ge : Int) (hne : ms ≠ [])
+    {lp sp : List Nat} {ls ss : Nat} {ld sd : List (Nat × Int)} {first last : Nat}
+    (hl : Gen.SrcLcskpp.lcskpp sortEv bsM ms k = Res.ok (lp, ls, ld))
+    (hsd : Gen.SrcSdpkpp.sdpkpp sortEv bsM bsN ms k msc go ge = Res.ok (sp, ss, sd))
+    (hasc : lp.Pairwise (· < ·)) (hf : sp.head? = some first) (hla : sp.getLast? = some last) (hlen : lp.length < 2 ^ 63) :
+    Gen.SrcSdpkpp.unionPath sortEv bsM bsN ms k msc go ge
+      = Res.ok (lp.take ((findIdx first 0 lp).getD 0) ++ sp ++
+          lp.drop (match findIdx last 0 lp with | some ind => ind + 1 | none => lp.length)) :=
+  GenSrcSdpkpp.unionPath_eq_splice sortEv bsM bsN hbsN ms k msc go ge hne hl hsd hasc hf hla hlen
+
+/-- `PrevPtr::new` as written in the source = the model's record (as the tuple in field order) when the plane fits `u32` -/
+theorem prevptr_new_source_eq_model (sortEv : List Ev → List Ev) (bsM : List M → M → Except Nat Nat) (bsN : List Nat → Nat → Except Nat Nat)
+    (sc x y id ge : Nat) (h : sc + (x + y) * ge < 2 ^ 32) (hxy : x + y < 2 ^ 32) :
+    Gen.SrcSdpkpp.prevPtrNew sortEv bsM bsN sc x y id ge = Res.ok (toT (PrevPtr.new sc x y id ge)) :=
+  GenSrcSdpkpp.prevPtrNew_eq_model sortEv bsM bsN sc x y id ge h hxy
+
+/-- `sdpkpp` as written in the source = the mirror model **given that its sweep loop is** (`hsw`).  Partial: what is
+missing is exactly `hsw` — that the translated loop body `sdpkpp_for3` (checked `u32` subtractions `cur_x - prev_x`, products
+`gap * _gap_extend`, `d * gap_extend`, `k * match_score`) follows `Model.Sdpkpp.stepEv` event by event; it needs a stronger
+sweep invariant and size hypotheses on the scoring parameters (docs/notes/GEN.md, "Dialect sp", Not done).  Proved here:
+the gap-parameter assertion, `(-gap_open) as u32`, the sortedness assertion, event list, sort (by contract),
+`MaxBitTree::new`, `dp.resize`, traceback, result — no panic outside the sweep. -/
+theorem sdpkpp_source_eq_model_partial (sortEv : List Ev → List Ev) (bsM : List M → M → Except Nat Nat) (bsN : List Nat → Nat → Except Nat Nat)
+    (hsort : SortOk sortEv) (ms : List M) (k msc gO gE : Nat) (hk : 0 < k) (hs : ms.Pairwise lexLt) (hB : Bnd ms k)
+    (hgo : gO < 2 ^ 31) (hge : gE < 2 ^ 31)
+    (hsw : List.foldlM (Gen.SrcSdpkpp.sdpkpp_for3 sortEv bsM bsN ms k msc gO gE) (initT ms k) (sortedEvents ms k)
+      = Res.ok (finalT ms k msc gO gE)) :
+    ∃ r, sdpkpp ms k msc gO gE = .ok r ∧
+      Gen.SrcSdpkpp.sdpkpp sortEv bsM bsN ms k msc (-(gO : Int)) (-(gE : Int)) = Res.ok (r.path, r.score, r.dp) :=
+  GenSrcSdpkpp.sdpkpp_eq_model_of_sweep sortEv bsM bsN hsort ms k msc gO gE hk hs hB hgo hge hsw
+
+theorem ascending_length_le (n : Nat) : ∀ (l : List Nat) (b : Nat), l.Pairwise (· < ·) → (∀ x ∈ l, b ≤ x ∧ x < n) → b ≤ n →
+    b + l.length ≤ n := by
+  intro l
+  induction l with
+  | nil => intro b _ _ h; simpa using h
+  | cons a t ih =>
+    intro b hp hb _
+    rw [List.pairwise_cons] at hp
+    have ha := hb a (by simp)
+    have := ih (a + 1) hp.2 (fun x hx => ⟨hp.1 x hx, (hb x (by simp [hx])).2⟩) (by omega)
+    simp only [List.length_cons]; omega
+
+/-- **the translated union returns a valid chain** — through the translated `lcskpp` (proved equal to its model) and the
+translated `sdpkpp`; partial for the same reason as `sdpkpp_source_eq_model_partial`: the hypothesis `hsw` on the sweep loop
+of `sdpkpp` -/
+theorem union_source_valid_partial (sortEv : List Ev → List Ev) (bsM : List M → M → Except Nat Nat) (bsN : List Nat → Nat → Except Nat Nat)
+    (hsort : SortOk sortEv) (hbsM : BSearchOk bsM) (hbsN : BSearchOk bsN) (ms : List M) (k msc gO gE : Nat) (hk : 0 < k)
+    (hs : ms.Pairwise lexLt) (hB : Bnd ms k) (hgo : gO < 2 ^ 31) (hge : gE < 2 ^ 31)
+    (hsw : List.foldlM (Gen.SrcSdpkpp.sdpkpp_for3 sortEv bsM bsN ms k msc gO gE) (initT ms k) (sortedEvents ms k)
+      = Res.ok (finalT ms k msc gO gE)) :
+    ∃ u, Gen.SrcSdpkpp.unionPath sortEv bsM bsN ms k msc (-(gO : Int)) (-(gE : Int)) = Res.ok u ∧ validChain ms k u = true := by
+  by_cases hne : ms = []
+  · subst hne
+    exact ⟨[], by simp [Gen.SrcSdpkpp.unionPath], by simp [validChain, pathMatches, chainB]⟩
+  · obtain ⟨rl, hl1, hl2⟩ := GenSrcLcskpp.lcskpp_eq_model sortEv bsM hsort hbsM ms k hk hs hB
+    obtain ⟨rl', hl1', _, hlv, _, _, hlasc⟩ := lcskpp_model_ok hk hs
+    have e1 : rl' = rl := by rw [hl1] at hl1'; cases hl1'; rfl
+    subst e1
+    obtain ⟨rs, hs1, hs2⟩ := GenSrcSdpkpp.sdpkpp_eq_model_of_sweep sortEv bsM bsN hsort ms k msc gO gE hk hs hB hgo hge hsw
+    obtain ⟨rs', hs1', hsv, hsne, _⟩ := sdpkpp_model_ok msc gO gE hk hs
+    have e2 : rs' = rs := by rw [hs1] at hs1'; cases hs1'; rfl
+    subst e2
+    have hpne := hsne hne
+    obtain ⟨first, hf⟩ : ∃ a, rs'.path.head? = some a := by
+      cases hp : rs'.path with
+      | nil => exact absurd hp hpne
+      | cons a t => exact ⟨a, rfl⟩
+    obtain ⟨last, hla⟩ : ∃ a, rs'.path.getLast? = some a := by
+      cases hp : rs'.path.getLast? with
+      | none => rw [List.getLast?_eq_none_iff] at hp; exact absurd hp hpne
+      | some a => exact ⟨a, rfl⟩
+    have hlen : rl'.path.length < 2 ^ 63 := by
+      have hall : ∀ x ∈ rl'.path, 0 ≤ x ∧ x < ms.length := by
+        intro x hx
+        have := ((validChain_iff' ms k rl'.path).mp hlv).1 x hx
+        omega
+      have := ascending_length_le ms.length rl'.path 0 hlasc hall (by omega)
+      have := hB.len
+      omega
+    exact ⟨_, GenSrcSdpkpp.unionPath_eq_splice sortEv bsM bsN hbsN ms k msc _ _ hne hl2 hs2 hlasc hf hla hlen,
+      union_valid ms k rl'.path rs'.path hlv hsv first last hf hla⟩
+
+example : Gen.SrcSdpkpp.prevPtrNew stdSortEv stdBsM (fun _ _ => .error 0) 7 3 4 2 5 = Res.ok (42, 7, 7, 2, 3, 4) := by decide
+
+end union_source
 
 section expand_then_chain
 open RbV.Model.Expand RbV.Model.Lcskpp
